@@ -204,6 +204,31 @@ for _k in ("train_val_split", "get_batches", "fit_rows"):
     HANDLERS[_k] = _h_c15
 HANDLERS["c05"] = _grid_handler("rt_c05", "C05 scipy.stats comparison")
 HANDLERS["c06"] = _grid_handler("rt_c06", "C06 batching")
+HANDLERS["c11"] = _grid_handler("rt_c11", "C11 constructor / raw-parameter sweep")
+def _h_planar(rec):
+    import numpy as np
+    m = rec["model"] or {}
+    tried = []
+    try:
+        s_, gww, gwu, b = rt.fnum(m["negative_slope"]), rt.fnum(m["G_w_w"]), rt.fnum(m["G_u_w"]), rt.fnum(m["bias"])
+        if s_ > 0 and gww > 0:
+            w = np.array([np.sqrt(gww), 0.0])
+            u = np.array([gwu / np.sqrt(gww), 0.3])
+            r = rt.rt_planar(s_, w, u, b)
+            tried.append(f"slope={s_}, w={w.tolist()}, u={u.tolist()}")
+            if r:
+                return True, r
+    except Exception as ex:  # noqa: BLE001
+        tried.append(f"model not usable: {ex}")
+    for s_ in (0.1, 1.0, 2.0, 5.0):
+        for wu in (-30.0, -5.0, -1.5, 0.0, 3.0):
+            r = rt.rt_planar(s_, np.array([1.0, 0.0]), np.array([wu, 0.3]), 0.2)
+            if r:
+                return True, r
+    return False, f"not reproduced: {tried}; slope/inner-product grid passed"
+
+
+HANDLERS["planar"] = _h_planar
 HANDLERS["losses"] = _grid_handler("rt_c17", "C17 loss re-evaluation")
 HANDLERS["transformed"] = _grid_handler("rt_c03", "C03 change-of-variables")
 HANDLERS["merge_transforms"] = _grid_handler("rt_c03", "C03 change-of-variables")
